@@ -69,6 +69,11 @@ type Stats struct {
 	Violations []Replay         `json:"violations"`
 	PerScn     map[string]int64 `json:"per_scenario"`
 	Pruned     int64            `json:"alternatives_beyond_bounds"`
+	// Diverged: executions whose prefix could not be replayed (uncaptured nondeterminism); nothing is concluded
+	// from them.  Unreproducible: findings whose immediate replay did not fail the same way; not reported.
+	Diverged       int64    `json:"diverged_executions"`
+	Unreproducible int64    `json:"unreproducible_findings"`
+	Notes          []string `json:"notes,omitempty"`
 }
 
 // Merge adds o into s.
@@ -79,6 +84,13 @@ func (s *Stats) merge(o *Stats) {
 	s.Steps += o.Steps
 	s.Points += o.Points
 	s.Pruned += o.Pruned
+	s.Diverged += o.Diverged
+	s.Unreproducible += o.Unreproducible
+	for _, n := range o.Notes {
+		if len(s.Notes) < 10 {
+			s.Notes = append(s.Notes, n)
+		}
+	}
 	if o.MaxPoints > s.MaxPoints {
 		s.MaxPoints = o.MaxPoints
 	}
@@ -128,6 +140,13 @@ func exploreLocal(sc Scenario, b Bounds, item Item, maxExec int, deadline time.T
 		stack = stack[:len(stack)-1]
 		res, outcome, fs := RunOne(sc, b, prefix, false)
 		n++
+		if res.Diverged != "" {
+			st.Diverged++
+			if len(st.Notes) < 3 {
+				st.Notes = append(st.Notes, sc.Name()+": "+res.Diverged)
+			}
+			continue
+		}
 		st.Executions++
 		st.PerScn[sc.Name()]++
 		st.Steps += int64(res.Steps)
@@ -139,8 +158,13 @@ func exploreLocal(sc Scenario, b Bounds, item Item, maxExec int, deadline time.T
 		if len(fs) > 0 {
 			// determinism discipline: the same schedule must fail the same way again before it is believed
 			res2, _, fs2 := RunOne(sc, b, res.Choices, true)
-			if len(fs2) == 0 || fs2[0].Class != fs[0].Class || !sameChoices(res.Choices, res2.Choices) {
-				panic(HarnessError{fmt.Sprintf("nondeterminism not captured: schedule %v of %s failed with %v, replay gave %v", res.Choices, sc.Name(), fs, fs2)})
+			if res2.Diverged != "" || len(fs2) == 0 || fs2[0].Class != fs[0].Class || !sameChoices(res.Choices, res2.Choices) {
+				// not believed: the same schedule must fail the same way every time
+				st.Unreproducible++
+				if len(st.Notes) < 3 {
+					st.Notes = append(st.Notes, fmt.Sprintf("%s: schedule %v failed with %v, its replay gave %v (%s)", sc.Name(), res.Choices, fs, fs2, res2.Diverged))
+				}
+				fs2 = nil
 			}
 			for _, f := range fs2 { // findings of the traced replay carry the parking sites
 				if len(st.Violations) < 20 {
@@ -149,7 +173,9 @@ func exploreLocal(sc Scenario, b Bounds, item Item, maxExec int, deadline time.T
 			}
 		}
 		if len(res.Points) < len(prefix) {
-			panic(HarnessError{fmt.Sprintf("divergence: execution of %s consumed %d of %d prefix choices", sc.Name(), len(res.Points), len(prefix))})
+			st.Diverged++ // the execution ended before the prefix was used up: same treatment as above
+			st.Executions--
+			continue
 		}
 		// children, pushed in reverse so that the simplest deviations are explored first
 		for i := len(res.Points) - 1; i >= len(prefix); i-- {
